@@ -1,7 +1,106 @@
 import ScVerif.Base.Line
-/-! Driver handler for C05 (stub: replaced by the property's owner). -/
-namespace ScVerif.C05
+import ScVerif.C05.Codec
+import ScVerif.C06.Get
+/-!
+Driver handler shared by driverC05 and driverC06 (stateful: the state is the schema sent by the
+harness in a `schema` line, taken from the real descriptors through protoreflect).
 
-def handle (_toks : List String) : String := "!bad-op"
+  schema <schema>                                   -> ok
+  nested <mask>                                     -> fmutils.NestedMaskFromPaths, canonical
+  filter|prune <mask> <msg>                         -> msg | panic        (fmutils.Filter / Prune)
+  pmerge <ty> <dst> <src>                           -> msg                (proto.Merge)
+  isvalid <ty> <mask>                               -> true|false
+  normalize <mask> ; union|intersect <mask> <mask>  -> paths
+  validate <ty> <W> <M> <R>                         -> OK|InvalidArgument|Internal
+  merge <ty> <W> <M> <R> <dst> <src>                -> <dst'> <src'> | panic
+  set <ty> <resW> <moreW> <all:0|1> <M> <R> <stored> <src>
+                                                    -> err:<code> | panic | <stored'> <src'>
+  rvalidate <ty> <mask>                             -> true|false          (ResponseFilter.Validate)
+  rfilter <mask> <msg>                              -> msg | panic         (ResponseFilter.Filter/FilterClone)
+  project <mask> <msg>                              -> msg                 (C06 specification)
+-/
+namespace ScVerif.C05
+open Codec
+
+def showOut (o : Out Fields) : String :=
+  match o with
+  | some fs => showMsg fs
+  | none => "panic"
+
+def pathsOf (m : Option (List Path)) : List Path := m.getD []
+
+def handleS (S : Schema) (toks : List String) : Schema × String :=
+  let bad := (S, "!bad-op")
+  match toks with
+  | ["schema", s] =>
+    match parseSchema s with
+    | some S' => (S', "ok")
+    | none => bad
+  | ["nested", m] =>
+    match parseMask m with
+    | some m => (S, showNested (Mask.fromPaths (pathsOf m)))
+    | none => bad
+  | ["filter", m, x] =>
+    match parseMask m, parseMessage x with
+    | some m, some fs => (S, showOut (filterMsg (Mask.fromPaths (pathsOf m)) fs))
+    | _, _ => bad
+  | ["prune", m, x] =>
+    match parseMask m, parseMessage x with
+    | some m, some fs => (S, showOut (pruneMsg (Mask.fromPaths (pathsOf m)) fs))
+    | _, _ => bad
+  | ["pmerge", ty, d, s] =>
+    match ty.toNat?, parseMessage d, parseMessage s with
+    | some ty, some d, some s => (S, showMsg (mergeFields S ty d s))
+    | _, _, _ => bad
+  | ["isvalid", ty, m] =>
+    match ty.toNat?, parseMask m with
+    | some ty, some m => (S, Line.showBool (isValid S ty (pathsOf m)))
+    | _, _ => bad
+  | ["normalize", a] =>
+    match parseMask a with
+    | some a => (S, showPaths (normalize (pathsOf a)))
+    | none => bad
+  | ["union", a, b] =>
+    match parseMask a, parseMask b with
+    | some a, some b => (S, showPaths (union (pathsOf a) (pathsOf b)))
+    | _, _ => bad
+  | ["intersect", a, b] =>
+    match parseMask a, parseMask b with
+    | some a, some b => (S, showPaths (intersect (pathsOf a) (pathsOf b)))
+    | _, _ => bad
+  | ["validate", ty, w, m, r] =>
+    match ty.toNat?, parseMask w, parseMask m, parseMask r with
+    | some ty, some w, some m, some r => (S, (validate S ty ⟨w, m, r⟩).show)
+    | _, _, _, _ => bad
+  | ["merge", ty, w, m, r, d, s] =>
+    match ty.toNat?, parseMask w, parseMask m, parseMask r, parseMessage d, parseMessage s with
+    | some ty, some w, some m, some r, some d, some s =>
+      match merge S ty ⟨w, m, r⟩ d s with
+      | some out => (S, showMsg out.dst ++ " " ++ showMsg out.src)
+      | none => (S, "panic")
+    | _, _, _, _, _, _ => bad
+  | ["set", ty, rw, mw, all, m, r, d, s] =>
+    match ty.toNat?, parseMask rw, parseMask mw, Line.parseBool? all, parseMask m, parseMask r,
+        parseMessage d, parseMessage s with
+    | some ty, some rw, some mw, some all, some m, some r, some d, some s =>
+      let u := fieldUpdater rw (moreWritable mw) all m r
+      match valueSet S ty u d s with
+      | .err c => (S, "err:" ++ c.show)
+      | .panic => (S, "panic")
+      | .ok st src => (S, showMsg st ++ " " ++ showMsg src)
+    | _, _, _, _, _, _, _, _ => bad
+  | ["rvalidate", ty, m] =>
+    match ty.toNat?, parseMask m with
+    | some ty, some m => (S, Line.showBool (C06.validate S ty m))
+    | _, _ => bad
+  | ["rfilter", m, x] =>
+    match parseMask m, parseMessage x with
+    | some m, some fs => (S, showOut (C06.filterClone m fs))
+    | _, _ => bad
+  | ["project", m, x] =>
+    match parseMask m, parseMessage x with
+    | some m, some fs => (S, showMsg (C06.projectMask m fs))
+    | _, _ => bad
+  | _ => bad
 
 end ScVerif.C05
